@@ -90,3 +90,11 @@ def run(ctx):
                 kinds = sorted(set(c[0] for c in discipline.consumers(fn, bi)))
                 ctx.ob('C20-D3', name, 'result of redact_assertion', 'propagated with ? (a failed redaction is never recorded)', kinds == ['propagate'], detail=str(kinds), site=loc(t['span']))
     ctx.floor('callers of redact_assertion', n, 1, rule='C20-D3')
+
+    # D5 builder: every requested redaction must have been applied (else Err(AssertionRedactionNotFound))
+    tc = 'builder::Builder::to_claim'
+    if ctx.require(prog.has(tc), tc):
+        fn = prog.fn(tc)
+        ctx.analysed(tc, 0)
+        g = CallGuard(r'contains$', 'false', argpred=lambda f, bi, t: 'Claim::redactions' in T.call_term(f, bi), name='applied.contains(requested redaction) = false')
+        n = oblig.failing_edge_obligation(ctx, 'C20-D5', fn, g, lambda bi, b: False, 'Err(AssertionRedactionNotFound)')
